@@ -39,6 +39,25 @@ pub fn prop_info(prop: &str) -> PropInfo {
     }
 }
 
+static EMERGENCY_PATH: std::sync::OnceLock<PathBuf> = std::sync::OnceLock::new();
+
+pub fn set_emergency_path(out: &str) {
+    let _ = EMERGENCY_PATH.set(PathBuf::from(format!("{out}.emergency")));
+}
+
+/// Persist a diagnosed finding when the shard itself cannot continue (e.g. a hang that cannot be
+/// cancelled); the orchestrator picks the file up next to the shard's report.
+pub fn emergency_finding(owner: &str, monitor: &str, message: &str, detail: &Value) {
+    if let Some(p) = EMERGENCY_PATH.get() {
+        let f = json!({
+            "property": owner, "monitor": monitor, "owner": owner, "signature": format!("{monitor}:general"),
+            "message": message,
+            "replay": {"property": owner, "monitor": monitor, "message": message, "detail": detail},
+        });
+        let _ = std::fs::write(p, serde_json::to_string(&f).unwrap_or_default());
+    }
+}
+
 pub fn run_shard(prop: &str, tier: &str, seed: u64, shard: u64, budget: Duration, max_iters: u64) -> ShardReport {
     let shard_seed = seed.wrapping_mul(0x9E37_79B9_7F4A_7C15) ^ (shard + 1).wrapping_mul(0xD1B5_4A32_D192_ED03) ^ fx(prop);
     if tier.starts_with("miri") {
@@ -134,6 +153,7 @@ pub fn check(prop: &str, tier: &str) -> i32 {
     for i in 0..shards {
         let out = shard_dir.join(format!("{prop}-{tier}-{i}.json"));
         let _ = std::fs::remove_file(&out);
+        let _ = std::fs::remove_file(format!("{}.emergency", out.display()));
         let child = Command::new(&exe)
             .args(["shard", prop, tier, &seed.to_string(), &i.to_string(), &format!("{budget}"), &max_iters.to_string()])
             .arg(&out)
@@ -192,6 +212,13 @@ pub fn check(prop: &str, tier: &str) -> i32 {
         let status = child.wait().expect("wait shard");
         if !status.success() {
             inconclusive.push(format!("shard {i} exited with {status}"));
+        }
+        let emergency = PathBuf::from(format!("{}.emergency", out.display()));
+        if let Ok(e) = std::fs::read_to_string(&emergency) {
+            if let Ok(f) = serde_json::from_str::<Value>(&e) {
+                findings.push(f);
+            }
+            let _ = std::fs::remove_file(&emergency);
         }
         let Ok(s) = std::fs::read_to_string(&out) else {
             inconclusive.push(format!("shard {i} produced no report"));
